@@ -46,6 +46,8 @@ class Unit:
     loops: bool = False               # apply (woven) loop contracts
     dfcc_loops: bool = False          # mode H: use --dfcc harness --apply-loop-contracts
     profiles: list = field(default_factory=list)   # weave profiles
+    weave_functions: list = field(default_factory=list)  # if given: only the sections of these functions are woven (a refactoring of
+                                                         # another function of the same profile then leaves this unit decidable)
     tables: bool = False              # needs lang_*.c
     extra_sources: list = field(default_factory=list)  # extracted sources to link, e.g. src/gf.c
     unwind: int = 40
@@ -241,7 +243,8 @@ def _run_unit(u: Unit, char: str, workroot: str, canary=False, keep=False, repo=
     os.makedirs(wd)
     res = Result(unit=u.name, char=char, status="undecided")
     try:
-        weave.extract(repo, wd, spec_sections(), set(u.profiles), with_tables=u.tables,
+        secs = [x for x in spec_sections() if not u.weave_functions or x["function"] in u.weave_functions]
+        weave.extract(repo, wd, secs, set(u.profiles), with_tables=u.tables,
                       expect_loops=expected_loops())
     except weave.WeaveError as e:
         res.reason = "weave: %s" % e
@@ -360,10 +363,14 @@ def _run_unit(u: Unit, char: str, workroot: str, canary=False, keep=False, repo=
     fails = [r for r in results if r.get("status") == "FAILURE"]
     unknown = [r for r in results if r.get("status") not in ("SUCCESS", "FAILURE")]
     res.discharged = len(results) - len(fails) - len(unknown)
+    # loop-contract obligations: named ones ("Check loop invariant ...", loop_invariant_base/step under dfcc) and the ones CBMC emits
+    # without description or location for `for (;;)` loops (property <function>.<n>, description "assertion")
+    lc_re = re.compile(r"^(%s)\.\d+$" % "|".join(re.escape(f) for f in u.loop_contracts)) if u.loop_contracts else None
     res.loop_obligations = sum(1 for r in results if "loop_invariant" in r.get("property", "")
                                or "loop invariant" in r.get("description", "").lower()
                                or "loop_decreases" in r.get("property", "")
-                               or "loop_step" in r.get("property", ""))
+                               or "loop_step" in r.get("property", "")
+                               or (lc_re is not None and lc_re.match(r.get("property", "")) and r.get("description") == "assertion"))
     # samples: a few obligation names with source lines
     seen = 0
     for r in results:
